@@ -237,10 +237,11 @@ Definition run_case (cn : name) (assigns : defn) (ops : list op) : cv :=
 Definition enum_pre (m : member) : result (list byte) := encode_varint (snd m).
 Definition enum_len (m : member) : result Z := size_varint (snd m).
 
-(* _postprocess_single(WIRE_VARINT, TYPE_ENUM) on the pinned tree: try_value(raw varint) *)
+(* _postprocess_single(WIRE_VARINT, TYPE_ENUM) on the original snapshot e3745e3 (before fix commit
+   bdf150b): try_value(raw varint) *)
 Definition enum_post_pinned (c : ecls) (raw : Z) : member := try_value c raw.
 
-(* with fixes/c20-f3-enum-int32-decode.patch:
+(* the current tree (fixes/c20-f3-enum-int32-decode.patch, applied as /repo commit bdf150b):
      value = ((value & 0xFFFFFFFF) ^ 0x80000000) - 0x80000000
      value = cls.try_value(value) *)
 Definition enum_post (c : ecls) (raw : Z) : member := try_value c (sign_recover 32 raw).
@@ -277,19 +278,21 @@ Definition enum_unpack_pinned (c : ecls) (buf : list byte) : result (list member
 (* ---- enum element of the dict / JSON codec ---- *)
 Inductive jv := JName (n : name) | JNum (z : Z) | JNull.
 
-(* pinned to_dict: enum_class(value).name — raises ValueError for a number without a name *)
+(* to_dict on the original snapshot (before fix commit f0e3c24): enum_class(value).name — raises
+   ValueError for a number without a name *)
 Definition to_json_el_pinned (c : ecls) (v : Z) : result jv :=
   do m <- call c v;
   Ok (match fst m with Some n => JName n | None => JNull end).
 
-(* with fixes/c20-f8-unnamed-enum-json.patch (_dump_enum):
+(* the current tree (fixes/c20-f8-unnamed-enum-json.patch, applied as /repo commit f0e3c24): _dump_enum,
+   used for singular, optional, oneof, repeated elements and (since a49c080) map values:
      name = enum_class.try_value(value).name
      return int(value) if name is None else name *)
 Definition to_json_el (c : ecls) (v : Z) : jv :=
   match fst (try_value c v) with Some n => JName n | None => JNum v end.
 
-(* _from_dict_init, one element: str -> from_string; int -> try_value (patched; the pinned
-   tree passes a singular int through unchanged and calls from_string on list elements) *)
+(* _from_dict_init / _parse_json_value, one element: str -> from_string; int -> try_value (the original
+   snapshot passed a singular int through unchanged and called from_string on list elements) *)
 Definition from_json_el (c : ecls) (j : jv) : result member :=
   match j with
   | JName n => from_string c n
